@@ -189,7 +189,7 @@ def classify(c, r, target="sql.sqlite"):
             return "same-name-column-dropped"
         if len(names) > len(exp) and re.search(r"SELECT (?:[^()]*, )?(?:\w+\.)?\*", sql):
             return "star-projection-extra-columns"
-    if st == "names-differ":
+    if st in ("names-differ", "rows-differ"):
         names = r.get("names") or []
         if len(set(c.columns)) < len(c.columns) and any(n.startswith("_expr_") for n in names):
             return "same-name-column-renamed"
